@@ -135,7 +135,10 @@ def _scalarise_fn(fn: ast.FunctionDef, records) -> int:
             iterable = True
             if isinstance(v, ast.Call) and isinstance(v.func, ast.Name) and v.func.id in records:
                 fl, defaults, iterable = records[v.func.id]
-                values = _field_values(v, fl, defaults)
+                if isinstance(defaults.get("__init__"), ast.FunctionDef):
+                    values = _init_values(v, defaults["__init__"])
+                else:
+                    values = _field_values(v, fl, defaults)
                 fields = fl
             elif isinstance(v, ast.Tuple) and v.elts and not any(isinstance(e, ast.Starred) for e in v.elts):
                 fields = [str(i) for i in range(len(v.elts))]
@@ -195,8 +198,80 @@ def _uses_ok(fn, var, define, fields, iterable, is_tuple) -> bool:
     return n_field_uses > 0 or is_tuple is False
 
 
+def init_classes(tree: ast.Module) -> Dict[str, Tuple[List[str], ast.FunctionDef]]:
+    """{private class name: (attributes in order, its __init__)} for module-level plain classes whose __init__ only
+    stores `self.<attr> = <expression over its parameters>` (the 'small state object' a long function is turned into)."""
+    out = {}
+    for n in tree.body:
+        if not (isinstance(n, ast.ClassDef) and n.name.startswith("_")):
+            continue
+        if any(not (isinstance(b, ast.Name) and b.id == "object") for b in n.bases) or n.decorator_list:
+            continue
+        init = next((m for m in n.body if isinstance(m, ast.FunctionDef) and m.name == "__init__"), None)
+        if init is None or init.args.vararg or init.args.kwarg or not init.args.args:
+            continue
+        self_name = init.args.args[0].arg
+        params = {a.arg for a in init.args.args[1:] + init.args.kwonlyargs}
+        fields, ok = [], True
+        for st in init.body:
+            if isinstance(st, ast.Expr) and isinstance(st.value, ast.Constant) and isinstance(st.value.value, str):
+                continue
+            tg = st.targets[0] if isinstance(st, ast.Assign) and len(st.targets) == 1 else (st.target if isinstance(st, ast.AnnAssign) and st.value is not None else None)
+            if not (isinstance(tg, ast.Attribute) and isinstance(tg.value, ast.Name) and tg.value.id == self_name):
+                ok = False
+                break
+            names = {x.id for x in ast.walk(st.value) if isinstance(x, ast.Name)}
+            if self_name in names or tg.attr in fields:
+                ok = False
+                break
+            fields.append(tg.attr)
+        if ok and fields:
+            out[n.name] = (fields, init)
+    return out
+
+
+def _init_values(call: ast.Call, init: ast.FunctionDef) -> Optional[List[ast.AST]]:
+    """the expressions __init__ stores, with its parameters replaced by the call's arguments"""
+    if any(isinstance(a, ast.Starred) for a in call.args) or any(k.arg is None for k in call.keywords):
+        return None
+    pos = init.args.args[1:]
+    if len(call.args) > len(pos):
+        return None
+    bind: Dict[str, ast.AST] = {}
+    for a, v in zip(pos, call.args):
+        bind[a.arg] = v
+    allp = {a.arg for a in pos + init.args.kwonlyargs}
+    for k in call.keywords:
+        if k.arg not in allp or k.arg in bind:
+            return None
+        bind[k.arg] = k.value
+    dflt = dict(zip([a.arg for a in pos][len(pos) - len(init.args.defaults):], init.args.defaults))
+    for a, d in zip(init.args.kwonlyargs, init.args.kw_defaults):
+        if d is not None:
+            dflt[a.arg] = d
+    for nm in allp:
+        if nm not in bind:
+            if nm not in dflt:
+                return None
+            bind[nm] = copy.deepcopy(dflt[nm])
+    # an argument expression is duplicated only when it is a plain name / constant / attribute chain
+    vals = []
+    for st in init.body:
+        if isinstance(st, ast.Expr):
+            continue
+        v = copy.deepcopy(st.value)
+        for x in ast.walk(v):
+            if isinstance(x, ast.Name) and x.id in bind and not isinstance(bind[x.id], (ast.Name, ast.Constant, ast.Attribute)):
+                return None
+        vals.append(_SubstNames({k: v2 for k, v2 in bind.items()}).visit(v))
+    return vals
+
+
 def scalarise_records(tree: ast.Module) -> int:
     records = record_classes(tree)
+    for cname, (fields, init) in init_classes(tree).items():
+        if cname not in records:
+            records[cname] = (fields, {"__init__": init}, False)
     n = 0
     for x in ast.walk(tree):
         if isinstance(x, (ast.FunctionDef, ast.AsyncFunctionDef)):
